@@ -28,7 +28,12 @@ METHOD_CALLS = ["''.join(['a', 'b'])", "'a'.upper()", "(1).bit_length()", "'a b'
                 "(1).real", "'abc'.startswith('a')", "' a '.strip()", "'a,b'.partition(',')", "(2).__pow__(3)"]
 KEYWORD_CALLS = ["int('11', base=2)", "sorted([1, 2], reverse=True)", "dict(a=1)", "max([1, 2], key=lambda v: -v)", "print(1, end='')",
                  "round(1.256, ndigits=1)", "sum([1, 2], start=10)", "enumerate([1], start=1)", "min([], default=3)", "str(b'a', encoding='utf8')",
-                 "list(*[[1]])", "dict(**{'a': 1})", "int(*['2'])", "max(*[1, 2])"]
+                 "list(*[[1]])", "dict(**{'a': 1})", "int(*['2'])", "max(*[1, 2])",
+                 # keyword and starred arguments of methods of literals
+                 "'a,b,c'.split(',', maxsplit=1)", "'a,b,c'.rsplit(sep=',', maxsplit=1)", "(1).to_bytes(2, byteorder='little')", "(1).to_bytes(length=2, byteorder='big')",
+                 "'{k}'.format(k=1)", "'{}-{k}'.format(0, k=2)", "b'\\xff'.decode('ascii', errors='replace')", "'\u00e9'.encode('ascii', errors='ignore')", "'a\\nb'.splitlines(keepends=True)",
+                 "'abc'.replace('a', 'b', *[0])", "' a '.strip(*[' ', ])", "'a-b'.split(*['-'])", "'x'.join(**{})", "int.from_bytes(b'\\x00\\x01', byteorder='little')",
+                 "(1.5).__round__(ndigits=0)", "'a b'.split(sep=None, maxsplit=0)", "'Ab'.center(4, *['*'])", "'%s' .format(*[1])", "'a'.encode(encoding='utf-16')"]
 PROCESS_DEPENDENT = ["hash('a')", "id(1)", "hash('a') % 2 == 0", "id([]) > 0", "hash((1, 'b'))", "repr(object)", "hash(None)",
                      "id(None) == id(None)", "dir()", "vars()", "locals()", "globals()", "hash(1.5)", "len(dir())", "hash('') == 0",
                      "str(hash('x'))", "set('abc')", "list(set('abc'))", "list({'a', 'b', 'c'})", "sorted(set('cab'))", "next(iter({'x', 'y'}))"]
